@@ -6,6 +6,7 @@ from checks import mergelib as m
 META = {
     "harness_bins": ["nkeval"],
     "extract": "C05.v",
+    "model_dir": "c05",
     "technique": "Coq proof that the denotation of a record literal is invariant under permutation of its fields and that of a merge under swapping operands (so export and field listings, functions of the denotation, cannot depend on written order); tie: the interpreter's JSON/YAML/TOML bytes and std.record.{fields,values,to_array} for original vs permuted programs, across two processes",
     "level_text": "coq/Props/C15.v: for every record literal with distinct field names and every permutation of its fields the elaboration is the same tree (C15_literal_order_irrelevant), and merge is commutative on all well-formed trees (C15_operand_order_irrelevant); in the algebra records are key-sorted so there is no insertion order to leak. Tie to the code: each generated program is evaluated by the interpreter as written, with every literal's fields permuted, and with the operands of every merge swapped; the serializer's JSON, YAML and TOML text and the results of std.record.fields / values / to_array are compared byte for byte (direct oracle), the batch is run in two separate processes (different hash seeds), and the exported tree is compared with the extracted algebra. PARTIAL: cross-process determinism is observed, not proved (a pure model is deterministic by construction); the insertion-ordered IndexMap mechanism of merge.rs (split_ref) is not modelled.",
     "level_note": "Trusted: Coq kernel; extraction; nkeval; generator. Not modelled: IndexMap insertion order / swap_remove inside merge.rs (covered only by the byte-level comparison on the implementation).",
